@@ -20,9 +20,13 @@
 (*   Cycle      at a backward jump, the same (pc, memory) as at an earlier visit on this timeline:     *)
 (*              nothing can halt any more, every pending choice is confirmed (status = "forever").     *)
 (*              Memory equality is tracked through the undo log: stores that do not change memory      *)
-(*              are not logged, so "same undo-log length at the same pc" implies "same memory".  A     *)
-(*              cycle whose memory oscillates is not detected; such a run exhausts its fuel and is     *)
-(*              INCONCLUSIVE, never a verdict.                                                         *)
+(*              are not logged, so "same undo-log length at the same pc" implies "same memory" (cheap  *)
+(*              test, catches the terminal `tnt` loop at once).  Loops whose memory changes and comes   *)
+(*              back are caught by full snapshots taken at doubling intervals (Brent's scheme; the    *)
+(*              snapshots rewind with the machine like everything else).  The output is NOT part of    *)
+(*              the compared state: control and memory do not depend on it, so a loop that keeps       *)
+(*              printing is still recognised as running forever.  A run whose state never repeats       *)
+(*              exhausts its fuel and is INCONCLUSIVE, never a verdict.                                *)
 (* One program of the batch and one initial memory (= one argument vector) are chosen in Init.         *)
 EXTENDS Word, TLC, BatchData
 LOCAL INSTANCE SequencesExt
@@ -35,8 +39,10 @@ Progs == MCProgs     \* sequence of [code, rt, inits]
 
 VARIABLES prog,     \* index into Progs (constant along a behaviour)
           inp,      \* index into Progs[prog].inits (constant along a behaviour)
-          pc, mem, choices, trail, out, anchors, status
-mvars == <<prog, inp, pc, mem, choices, trail, out, anchors, status>>
+          pc, mem, choices, trail, out, anchors, status,
+          snaps,    \* full (pc, mem) snapshots taken at backward jumps at doubling intervals (Brent)
+          tstep     \* number of steps on the current timeline
+mvars == <<prog, inp, pc, mem, choices, trail, out, anchors, status, snaps, tstep>>
 
 P == Progs[prog]
 CodeLen == Len(P.code)
@@ -104,12 +110,13 @@ Write(a, bs) ==
    ELSE /\ mem' = Splice(mem, a, bs)
         /\ trail' = Append(trail, [a |-> a, old |-> old])
 
-Advance(a, bs) == /\ Write(a, bs) /\ pc' = pc + 1 /\ UNCHANGED <<choices, out, anchors, status>>
+Tick == tstep' = tstep + 1
+Advance(a, bs) == /\ Write(a, bs) /\ pc' = pc + 1 /\ Tick /\ UNCHANGED <<choices, out, anchors, status, snaps>>
 
 Undo(m, entries) == FoldLeft(LAMBDA acc, e : Splice(acc, e.a, e.old), m, Reverse(entries))
 
 Backtrack ==
-   IF choices = <<>> THEN /\ status' = "halted" /\ UNCHANGED <<pc, mem, choices, trail, out, anchors>>
+   IF choices = <<>> THEN /\ status' = "halted" /\ UNCHANGED <<pc, mem, choices, trail, out, anchors, snaps, tstep>>
    ELSE LET c == choices[Len(choices)] IN
         /\ pc' = c.target
         /\ choices' = SubSeq(choices, 1, Len(choices) - 1)
@@ -117,22 +124,34 @@ Backtrack ==
         /\ trail' = SubSeq(trail, 1, c.tl)
         /\ out' = SubSeq(out, 1, c.ol)
         /\ anchors' = SubSeq(anchors, 1, c.al)
+        /\ snaps' = SubSeq(snaps, 1, c.sl)
+        /\ tstep' = c.ts + 1
         /\ UNCHANGED status
 
-Emit(e) == /\ out' = Append(out, e) /\ pc' = pc + 1 /\ UNCHANGED <<mem, choices, trail, anchors, status>>
+Emit(e) == /\ out' = Append(out, e) /\ pc' = pc + 1 /\ Tick /\ UNCHANGED <<mem, choices, trail, anchors, status, snaps>>
 
-Fault == /\ status' = "fault" /\ UNCHANGED <<pc, mem, choices, trail, out, anchors>>
+Fault == /\ status' = "fault" /\ UNCHANGED <<pc, mem, choices, trail, out, anchors, snaps, tstep>>
+
+\* the k-th snapshot (k = 0, 1, ...) is taken at the first backward jump after SnapBase * 2^k steps
+SnapBase == 96
+RECURSIVE SnapDue(_, _)
+SnapDue(k, t) == IF k = 0 THEN t >= SnapBase ELSE t >= 2 * SnapBase /\ SnapDue(k - 1, t \div 2)
 
 Jump(i) ==
    LET t == Addr(Val(i.a))
        back == t <= pc
        here == <<pc, Len(trail)>>
-   IN IF back /\ \E k \in 1..Len(anchors) : anchors[k] = here
-      THEN /\ status' = "forever" /\ UNCHANGED <<pc, mem, choices, trail, out, anchors>>       \* Cycle
-      ELSE LET anch == IF back THEN Append(anchors, here) ELSE anchors IN
+       full == [pc |-> pc, mem |-> mem]
+   IN IF back /\ (\/ \E k \in 1..Len(anchors) : anchors[k] = here
+               \/ (snaps # <<>> /\ snaps[Len(snaps)] = full))
+      THEN /\ status' = "forever" /\ UNCHANGED <<pc, mem, choices, trail, out, anchors, snaps, tstep>>   \* Cycle
+      ELSE LET anch == IF back THEN Append(anchors, here) ELSE anchors
+               sn == IF back /\ SnapDue(Len(snaps), tstep) THEN Append(snaps, full) ELSE snaps IN
            /\ anchors' = anch
-           /\ choices' = Append(choices, [target |-> t, tl |-> Len(trail), ol |-> Len(out), al |-> Len(anch)])
-           /\ pc' = pc + 1
+           /\ snaps' = sn
+           /\ choices' = Append(choices, [target |-> t, tl |-> Len(trail), ol |-> Len(out), al |-> Len(anch),
+                                          sl |-> Len(sn), ts |-> tstep])
+           /\ pc' = pc + 1 /\ Tick
            /\ UNCHANGED <<mem, trail, out, status>>
 
 Step ==
@@ -144,7 +163,7 @@ Step ==
       ELSE CASE i.op = "j" -> Jump(i)
         [] i.op = "halt" -> Backtrack
         [] i.op \in HaltOps -> (IF Cond(i.op, Val(i.a), Val(i.b)) THEN Backtrack
-                                ELSE pc' = pc + 1 /\ UNCHANGED <<mem, choices, trail, out, anchors, status>>)
+                                ELSE pc' = pc + 1 /\ Tick /\ UNCHANGED <<mem, choices, trail, out, anchors, status, snaps>>)
         [] i.op = "mov" -> Advance(i.a.v, Val(i.b))
         [] i.op \in ArithOps -> Advance(i.a.v, Arith(i.op, Val(i.b), Val(i.c)))
         [] i.op \in LoadOps -> Advance(i.a.v, IF LoadSize(i.op) = W THEN RdBytes(LoadBuf(i.op), LoadAddr(i), W)
@@ -158,6 +177,7 @@ MInit == /\ prog \in 1..Len(Progs)
          /\ inp \in 1..Len(Progs[prog].inits)
          /\ pc = 0 /\ mem = Progs[prog].inits[inp].m
          /\ choices = <<>> /\ trail = <<>> /\ out = <<>> /\ anchors = <<>> /\ status = "run"
+         /\ snaps = <<>> /\ tstep = 0
 
 (* ------------------------------------------------------------------ observables *)
 \* index of the first terminal flag (win / error) in an event list, 0 if none
